@@ -450,7 +450,7 @@ Ltac destruct_op o :=
   destruct o as [v|i|i k q| |c i cp f|c is cp f|c i|c i k q|c q|c lo hi|c1 c2|c q|c removed|c|a i k q
                 |c i j ip v|cs times|t c tm cp|t|t lo hi|t|is times|k i tm|k|k lo hi|k i|ks|l q
                 |t|cs j|k|is j|ts|j q|j i q
-                |is dt cp f|c|c idxs|t idxs|k idxs|t].
+                |is dt cp f|c|c idxs|t idxs|k idxs|t|c cp f].
 
 Lemma copy_ems_tables h es h1 : copy_ems h es = Some h1 ->
   tcs h1 = tcs h /\ trs h1 = trs h /\ hnd h1 = hnd h /\ arrs h1 = arrs h /\ tls h1 = tls h
